@@ -17,7 +17,8 @@ correspond : (unit) random add/get/rollback/recycle sequences on the real `Symbo
              is attributed to the finding whose guard failed only if the model predicts the engine's answer.
              (continuations) generated histories in which a continuation with pending code that reads globals is stored,
              the globals / procedures are redefined, the recycler runs, reclaimed slots are reused, the continuation is
-             resumed: real engine vs the values the binding-cell semantics demands (finding K06d); corpus/C06/*.scm.
+             resumed: real engine vs the values the binding-cell semantics demands (this family found K06d, fixed in /repo f2f700ff);
+             corpus/C06/*.scm.
 oracle     : S.  A real != S difference is a violation unless it falls in the class of an open finding.
 """
 import os
@@ -31,8 +32,8 @@ META = {
     "ready": True,
     "category": "proof",
     "technique": "Lean 4 refinement theorem over all evaluation histories (slots refine binding cells: simulation with an abstraction map slot -> cell through SymbolMap.add / roll_back / slot recycler / run of the forms; a second simulation for the unit-local constant propagation) + regenerated recycler scan table + differential histories real Engine vs specification vs model with the theorems' guards evaluated per step",
-    "level_text": "Proved for ALL histories (any length, any number of recycler runs, any initial threshold/epoch; SteelVerif/C06/Props.lean): slots_refine_cells - the mechanism model M (SymbolMap.add/get/roll_back with shadow and free lists, global vector, build failure with roll-back, run-time failure keeping completed definitions, gc_shadowed_roots trigger with threshold doubling/epoch, GlobalSlotRecycler fixed point) gives exactly the results of the specification S (names -> binding cells, fresh cell per define, set! writes the cell, failed build is a no-op) on every history inside three decidable guards: guardC (a build fails only while no reclaimed slot awaits reuse, or defines nothing - negation of K06c), guardB (no definition after an (error ...) form in the unit - K06b), guardU (no definition after a form that reads/calls/assigns in the same unit). live_slots_owned: after every such history there is an injective map slot -> cell under which every function stored in a slot in use mentions only slots that are in use, not on the free list and owned by the cell the specification's function captured (preserved by add, roll-back, recycler run, every form). propagate_refines_partial: the compiler's unit-local constant propagation (modelled: (define x k) into function bodies of the same unit that assign x nowhere) is invisible to S inside the decidable guard histOKA (no form assigns a frozen cell - negation of K06a); slots_refine_cells_real composes both for the pipeline propagate-then-M. slots_refine_cells_any_reuse_order: the same with an oracle permuting the free list before every unit (the real recycler's hash-set order decides which reclaimed slot a definition takes; the result does not depend on it). Corollaries: redefinition_only_affects_later_code, set_visible_to_all (unconditional, from any reachable state), failed_unit_is_noop_partial; the unguarded statements are proved FALSE with decided witnesses that are the replays of K06a, K06b, K06c (k06a_outside_guard, k06b_outside_guard, k06c_outside_guard, not_failedUnitIsNoop, not_rollbackRestores, not_pipeline_refines_unguarded, use_before_define_outside_guard). Unit level: recycler scan list (regenerated from closed.rs on every run) covers every op code that indexes the global vector; the recycler's fixed point never frees a slot mentioned by a surviving slot; roll_back restores map, values, shadow list and free list when no recycled slot was reused. Tie: histories on one real Engine (define / redefine / set! / setters / built-ins in globals / captured closures / failing builds / run-time failures / churn across the recycling threshold / chains through shadowed bindings) compared with S after every step with every function called; the driver evaluates the theorems' guards on every piece - inside them model = S is re-checked, outside them a deviation is attributed to a finding only when the model predicts the engine's answer; the engine's shadowed count / threshold / epoch are compared with the model's at every step (reported); real SymbolMap vs model on random unit-level sequences incl. recycler runs.",
-    "level_note": "Trusted: Lean kernel, the translator regexes, harness/driver/comparison. M is hand-written after compiler/map.rs, values/closed.rs, engine.rs (tied by the unit-level and history-level correspondence, not by translation); the values of M are abstract (a function = the list of global slots / literals its body mentions; the compiler's choice of op codes is C01's matter; hand list of global-indexing op codes in LemmasRecycler.lean). Not modelled: inlining of small procedures into callers of the same unit (same finding class K06a as the constant propagation, which is modelled), lambda-lifted hidden globals (the engine keeps 1-2 more slots alive than M in some recycler runs: reported as free_count_max_excess_of_model; the opposite direction would be reported as a note), continuations (not in the history language of the Lean model: a continuation is a value whose pending code mentions global slots exactly like a function's body, and the recycler has to scan it like one - tied by the translator (continuation_code_scanned, false on the pinned source) and by the generated continuation histories real vs binding-cell semantics: finding K06d). The engine rejects a name defined twice in one unit (BadSyntax) before touching the symbol map; M and S accept it - such units only occur together with a failing form in the generated histories.",
+    "level_text": "Proved for ALL histories (any length, any number of recycler runs, any initial threshold/epoch; SteelVerif/C06/Props.lean): slots_refine_cells - the mechanism model M (SymbolMap.add/get/roll_back with shadow and free lists, global vector, build failure with roll-back, run-time failure keeping completed definitions, gc_shadowed_roots trigger with threshold doubling/epoch, GlobalSlotRecycler fixed point) gives exactly the results of the specification S (names -> binding cells, fresh cell per define, set! writes the cell, failed build is a no-op) on every history inside three decidable guards: guardC (a build fails only while no reclaimed slot awaits reuse, or defines nothing - negation of K06c), guardB (no definition after an (error ...) form in the unit - K06b), guardU (no definition after a form that reads/calls/assigns in the same unit). live_slots_owned: after every such history there is an injective map slot -> cell under which every function stored in a slot in use mentions only slots that are in use, not on the free list and owned by the cell the specification's function captured (preserved by add, roll-back, recycler run, every form). propagate_refines_partial: the compiler's unit-local constant propagation (modelled: (define x k) into function bodies of the same unit that assign x nowhere) is invisible to S inside the decidable guard histOKA (no form assigns a frozen cell - negation of K06a); slots_refine_cells_real composes both for the pipeline propagate-then-M. slots_refine_cells_any_reuse_order: the same with an oracle permuting the free list before every unit (the real recycler's hash-set order decides which reclaimed slot a definition takes; the result does not depend on it). Corollaries: redefinition_only_affects_later_code, set_visible_to_all (unconditional, from any reachable state), failed_unit_is_noop_partial; the unguarded statements are proved FALSE with decided witnesses that are the replays of K06a, K06b, K06c (k06a_outside_guard, k06b_outside_guard, k06c_outside_guard, not_failedUnitIsNoop, not_rollbackRestores, not_pipeline_refines_unguarded, use_before_define_outside_guard). Unit level: recycler scan list (regenerated from closed.rs on every run) covers every op code that indexes the global vector and the recycler hands the code a live continuation resumes to that scan (gen_recycler_scans_continuations); the recycler's fixed point never frees a slot mentioned by a surviving slot; roll_back restores map, values, shadow list and free list when no recycled slot was reused. Tie: histories on one real Engine (define / redefine / set! / setters / built-ins in globals / captured closures / failing builds / run-time failures / churn across the recycling threshold / chains through shadowed bindings) compared with S after every step with every function called; the driver evaluates the theorems' guards on every piece - inside them model = S is re-checked, outside them a deviation is attributed to a finding only when the model predicts the engine's answer; the engine's shadowed count / threshold / epoch are compared with the model's at every step (reported); real SymbolMap vs model on random unit-level sequences incl. recycler runs.",
+    "level_note": "Trusted: Lean kernel, the translator regexes, harness/driver/comparison. M is hand-written after compiler/map.rs, values/closed.rs, engine.rs (tied by the unit-level and history-level correspondence, not by translation); the values of M are abstract (a function = the list of global slots / literals its body mentions; the compiler's choice of op codes is C01's matter; hand list of global-indexing op codes in LemmasRecycler.lean). Not modelled: inlining of small procedures into callers of the same unit (same finding class K06a as the constant propagation, which is modelled), lambda-lifted hidden globals (the engine keeps 1-2 more slots alive than M in some recycler runs: reported as free_count_max_excess_of_model; the opposite direction would be reported as a note), continuations (not in the history language of the Lean model: a continuation is a value whose pending code mentions global slots exactly like a function's body, and the recycler has to scan it like one - tied by the translator (continuation_code_scanned; obligation gen_recycler_scans_continuations) and by the generated continuation histories real vs binding-cell semantics; this is how K06d was found - fixed in /repo f2f700ff, its histories are corpus entries d20/d21). The engine rejects a name defined twice in one unit (BadSyntax) before touching the symbol map; M and S accept it - such units only occur together with a failing form in the generated histories.",
 }
 
 VARS = ["v%d" % i for i in range(8)]
@@ -143,6 +144,21 @@ def gen_history(rng, npieces, stream, obs_every=7):
             piece.append("rfail")
             if stream == "k06b" and rng.random() < 0.5:
                 piece.append("defc %s %d" % (rng.choice(defined("var")), fresh()))
+        elif r < 0.83 and defined("var"):
+            # units with several definitions (inside every guard): a variable that the unit itself assigns in a procedure body is
+            # NOT constant-propagated into the unit's functions; a procedure called by another procedure of the same unit
+            # may be inlined by the compiler, which nothing can observe as long as it is not assigned
+            v, f, g, st = rng.choice(VARS), rng.choice(FNS), rng.choice(FNS), rng.choice(SETTERS)
+            if rng.random() < 0.5:
+                if kind.get(v, "var") == "var" and kind.get(f, "fn") == "fn" and kind.get(st, "setter") == "setter":
+                    forms = ["defc %s %d" % (v, fresh()), "deff %s %s:r" % (f, v), "defs %s %s" % (st, v)]
+                    rng.shuffle(forms)
+                    piece += forms
+                    kind[v], kind[f], kind[st] = "var", "fn", "setter"
+            elif f != g and kind.get(f, "fn") == "fn" and kind.get(g, "fn") == "fn":
+                v0 = rng.choice(defined("var"))
+                piece += ["deff %s %s:r" % (g, v0), "deff %s %s:c %s:r" % (f, g, v0)]
+                kind[f], kind[g] = "fn", "fn"
         else:
             # churn: push the number of shadowed slots over the recycling threshold
             for _ in range(rng.randint(3, 9)):
@@ -155,7 +171,10 @@ def gen_history(rng, npieces, stream, obs_every=7):
         if stream == "k06a" and rng.random() < 0.08:
             v, f = rng.choice(VARS), rng.choice(FNS)
             if kind.get(v, "var") == "var" and kind.get(f, "fn") == "fn":
-                pieces.append(["defc %s %d" % (v, fresh()), "deff %s %s:r" % (f, v)])
+                unit = ["defc %s %d" % (v, fresh()), "deff %s %s:r" % (f, v)]
+                if rng.random() < 0.4:
+                    unit.reverse()                   # the propagation does not depend on the order inside the unit
+                pieces.append(unit)
                 kind[v], kind[f] = "var", "fn"
                 pieces.append(["set %s %d" % (v, fresh())])
         if i % obs_every == obs_every - 1:
